@@ -1,5 +1,6 @@
 import VncModel.Ws.Base64
 import VncModel.Ws.LemmasB64
+import VncModel.Ws.Spec
 /-! The round-trip law of the base64 model: `pton (ntop z) = z` (by induction over 3-byte groups;
 the bit manipulations are discharged by kernel evaluation over the small finite domains they
 depend on). -/
@@ -231,5 +232,12 @@ theorem pton_ntop (z : List Byte) (ts : Nat) (h : z.length < ts) : pton (ntop z)
     exact takeWhile_all _ _ (ntop_nonzero z)
   rw [this, ptonGo_ntop ts z [] (by simpa using h)]
   simp
+
+end VncModel.Ws
+
+namespace VncModel.Ws
+
+/-- the hypothesis the decoder lemmas are stated under holds -/
+theorem b64Law : B64RoundTrip := fun z ts h => pton_ntop z ts h
 
 end VncModel.Ws
